@@ -480,6 +480,7 @@ type c08World struct {
 	abandon bool
 	mons    []Mon
 	seen    map[string]bool
+	created map[string]bool // objects that appeared during the run (created by a reconcile)
 }
 
 func (w *c08World) mon(sig, why string) {
@@ -691,7 +692,7 @@ func c08NewWorld(s c08Scn) *c08World {
 	for i, o := range s.Objs {
 		st.Seed(c08Build(i, o, s.Objs))
 	}
-	w := &c08World{st: st, seen: map[string]bool{}}
+	w := &c08World{st: st, seen: map[string]bool{}, created: map[string]bool{}}
 	w.newEngine(s.Running)
 	return w
 }
@@ -882,6 +883,11 @@ func (w *c08World) step(s c08Step, running []string) c08StepObs {
 	}
 	post := w.snap()
 	o.Chg = c08Diff(pre, post)
+	for k := range post.objs {
+		if _, ok := pre.objs[k]; !ok {
+			w.created[k] = true
+		}
+	}
 	if isCtl {
 		w.monitor(pre, post, crashStep, o.Call)
 	}
@@ -903,6 +909,17 @@ func (w *c08World) finish() {
 }
 
 // ---------------------------------------------------------------- monitors
+
+// allCreated: every one of these objects appeared during the run (none is part of the
+// initial world), i.e. some reconcile outside the deletion branches created it.
+func (w *c08World) allCreated(vs []c08View) bool {
+	for _, v := range vs {
+		if !w.created[v.key()] {
+			return false
+		}
+	}
+	return true
+}
 
 // monitor evaluates the ordering constraints on one controller write: pre is the
 // store just before the call, post just after.
@@ -946,7 +963,11 @@ func (w *c08World) monitor(pre, post c08Snap, crash bool, call string) {
 				continue
 			}
 			if n := len(pre.ofKind(inst)); n > 0 {
-				w.mon("C08:crd-deleted-with-instances", fmt.Sprintf("%s: CRD %s deleted while %d %s instance(s) exist", call, v.Name, n, inst))
+				if w.allCreated(pre.ofKind(inst)) {
+					w.mon("C08:instance-recreated-during-xrd-teardown", fmt.Sprintf("%s: CRD %s deleted while %d %s instance(s) exist that a reconcile created after the empty-list check", call, v.Name, n, inst))
+				} else {
+					w.mon("C08:crd-deleted-with-instances", fmt.Sprintf("%s: CRD %s deleted while %d %s instance(s) exist", call, v.Name, n, inst))
+				}
 			}
 			if pre.running[ctl] {
 				w.mon("C08:crd-deleted-before-stop", fmt.Sprintf("%s: CRD %s deleted while controller %s is running", call, v.Name, ctl))
@@ -985,7 +1006,11 @@ func (w *c08World) monitor(pre, post c08Snap, crash bool, call string) {
 			if pre.running[x.ctl] && !post.running[x.ctl] {
 				if c, ok := pre.objs["crd/"+x.crd]; ok && c.CtrlUID == xrd.UID {
 					if n := len(pre.ofKind(x.inst)); n > 0 {
-						w.mon("C08:stop-with-instances", fmt.Sprintf("%s: controller %s stopped while %d %s instance(s) exist and CRD %s is ours", call, x.ctl, n, x.inst, x.crd))
+						if w.allCreated(pre.ofKind(x.inst)) {
+							w.mon("C08:instance-recreated-during-xrd-teardown", fmt.Sprintf("%s: controller %s stopped while %d %s instance(s) exist that a reconcile created after the empty-list check", call, x.ctl, n, x.inst))
+						} else {
+							w.mon("C08:stop-with-instances", fmt.Sprintf("%s: controller %s stopped while %d %s instance(s) exist and CRD %s is ours", call, x.ctl, n, x.inst, x.crd))
+						}
 					}
 				}
 			}
